@@ -33,6 +33,23 @@ CLAIMED.update({
             "The reference counter reads the lattice through hook H2 (real lattice construction); the reorder/map CLIs are mirrored, not executed.",
             "DESIGN.md section 6 (C13)"),
 })
+CLAIMED.update({
+    "C05": ("exploration",
+            "replica-divergence simulation: write->faulty streams->read replicas under seeded histories of later operations; byte-identity and returned-count oracles; hard-fault injection",
+            "Seeded search over histories in which copies of a dictionary go through write/read at arbitrary points (also copies of copies) via short-write/EINTR sinks and short-read/EINTR readers, then all replicas receive the same later operations (user lexicon load/clear, id mapping) and must stay observationally equal (full token tuples for probe sentences x option sets, every id-pair connection cost) and write identical bytes with write() reporting exactly the bytes accepted; hard sink/reader faults must give Err. Dual connectors add a replica rebuilt under another template split. Sampled, not exhaustive.",
+            "Observation is over seeded probes and all id pairs (hook H1); the portable<->AVX2 exchange is a thorough-tier step; stream stubs model files.",
+            "DESIGN.md section 6 (C05)"),
+    "C06": ("exploration",
+            "two-replica (mapped vs never-mapped) history simulation against a harness-tracked composed permutation; malformed-mapping injection with restart",
+            "Seeded search over orders of {map, map again, load/clear user lexicon, write/read, malformed mapping}: the mapped replica must equal the unmapped one up to the composed permutation (token tuples with translated ids; cost_M(PR(r),PL(l)) == cost_R(r,l) for every pair incl. id 0), for all three connector kinds; every malformed mapping kind must be rejected with Err (never applied, never a panic), after which the replica rebuilt by replaying the history must still agree. Sampled, not exhaustive.",
+            "The composed permutation is computed by the harness from the documented direction of the mapping lists; observation over seeded probes and all id pairs.",
+            "DESIGN.md section 6 (C06)"),
+    "C08": ("exploration",
+            "history simulation of load/replace/clear against pristine replicas (rebuilt with only the current rows; system lexicon extended by the rows); malformed-lexicon and reader-fault injection with restart",
+            "Seeded search over load/replace/clear histories (optionally on mapped dictionaries, through short-read/EINTR readers): the dictionary must equal a pristine replica holding only the current rows (tokens and all connection costs), its per-position candidate multisets and optimal cost must equal those of a dictionary whose system lexicon contains the same rows, and no User token may appear without a user lexicon; every malformed lexicon kind and every reader hard error must give Err without panic. Sampled, not exhaustive.",
+            "Candidate multisets come from the lattice dump hook H2; token sequences are not compared against the extended system lexicon (ties).",
+            "DESIGN.md section 6 (C08)"),
+})
 PENDING = {
 }
 
